@@ -44,7 +44,9 @@ Conform(e) ==
         <<"results", e.results = X.toks>>,
         <<"pool", e.pool = ProjPool(X.m)>>,
         <<"nav", e.nav = ProjNav(X.m)>>,
-        <<"attr", e.attr = ProjAttr(X.m)>>
+        <<"attr", e.attr = ProjAttr(X.m)>>,
+        \* C08: the same tokens at the same positions with lower-case keywords compute the same results and population
+        <<"case_independent", e.casediff = <<>>>>
       >>)
 
 TNext == /\ TEnabled /\ UNCHANGED dummy
